@@ -92,6 +92,21 @@ theorem rotate_rotor_eq (L : Nat) (sw : Int) (ellMax : Nat) (zI flnI nT pT : Nat
 
 macro "sub_ids" : tactic => `(tactic| (intro a ha; simp only [List.mem_cons, List.mem_singleton, List.not_mem_nil, or_false] at ha ⊢; tauto))
 
+/-- the generated body of `Wigner.d`, every arithmetic: entry (ℓ, m', m) is the model's `dEntry` -/
+theorem d_body_entry (L : Nat) (ell_min : Int) (dId : Nat) (c s : α) (a b d g h : Int → α) (ht : TabOK L a b d g h)
+    (F : φ) (J : Loc → α) (h0 : 0 ≤ ell_min) (ell : Nat) (mp m : Int) (h1 : ell_min ≤ ell) (hl : ell ≤ L)
+    (hp1 : -(ell : Int) ≤ mp) (hp2 : mp ≤ ell) (hm1 : -(ell : Int) ≤ m) (hm2 : m ≤ ell) :
+    frd (α := α) (Gen.Wigner_d_body (α := α) g h (L : Int) (L : Int) a b d ⟨c, s⟩ idW idV idX dId ell_min F) dId (WignerDindex (ell : Int) mp m ell_min (-1))
+      = Model.dEntry (α := α) (Model.runH (α := α) L L c s (⟨F, J⟩ : Hyb L L φ α)) ell mp m :=
+  GenFill.gen_d_entry L ell_min dId c s a b d g h ht F J h0 ell mp m h1 hl hp1 hp2 hm1 hm2
+
+theorem d_body_only (g h : Int → α) (L P : Int) (a b d : Int → α) (z : Cx α) (Hw Hv Hx dId : Nat) (ell_min : Int) (st : φ) :
+    Only α [Hw, Hv, Hx, dId] st (Gen.Wigner_d_body (α := α) g h L P a b d z Hw Hv Hx dId ell_min st) := by
+  unfold Gen.Wigner_d_body
+  simp only []
+  refine Only.trans _ _ _ _ ?_ (Only.mono _ _ _ _ (by sub_ids) (fill_d_only _ _ _ dId _ _))
+  exact Only.mono _ _ _ _ (by sub_ids) (wigner_H_only g h L P a b d z Hw Hv Hx st)
+
 theorem D_rotor_only (R : Int → α) (zI : Nat) (g h : Int → α) (L P : Int) (a b d : Int → α) (Hw Hv Hx DI aI : Nat) (imsqrt : Cx α → α) (gI : Nat)
     (ell_min : Int) (st : φ) :
     Only α [Hw, Hv, Hx, zI, aI, gI, DI] st (Gen.Wigner_D_rotor (α := α) R zI g h L P a b d Hw Hv Hx DI aI imsqrt gI ell_min st) := by
@@ -300,6 +315,15 @@ end
 /-! ### the documented functions, for the generated method bodies (exact reals, every unit quaternion) -/
 section
 variable {φ : Type} [FMem φ ℝ] [LawfulFMem φ ℝ]
+
+/-- **`Wigner.d` — method body and every kernel from the source — writes the documented d** (`expiβ = (cos β, sin β)` with
+    `cos β = ch² − sh²`, `sin β = 2 ch sh`: every β) -/
+theorem d_body_doc (ch sh : ℝ) (hcs : ch ^ 2 + sh ^ 2 = 1) (L : Nat) (ell_min : Int) (dId : Nat) (a b d g h : Int → ℝ) (ht : TabOK L a b d g h)
+    (F : φ) (h0 : 0 ≤ ell_min) (ell : Nat) (mp m : Int) (h1 : ell_min ≤ ell) (hl : ell ≤ L) (hmp : mp.natAbs ≤ ell) (hm : m.natAbs ≤ ell) :
+    frd (α := ℝ) (Gen.Wigner_d_body (α := ℝ) g h (L : Int) (L : Int) a b d ⟨ch ^ 2 - sh ^ 2, 2 * ch * sh⟩ idW idV idX dId ell_min F) dId
+        (WignerDindex (ell : Int) mp m ell_min (-1))
+      = DocD.docd ch sh ell mp m :=
+  GenFill.gen_d_eq_docd ch sh hcs L ell_min dId a b d g h ht F h0 ell mp m h1 hl hmp hm
 
 /-- **`Wigner.D` — method body and every kernel from the source — writes the documented 𝔇** -/
 theorem D_rotor_doc (L : Nat) (ell_min : Int) (zI aI gI DI : Nat) (a b d g h : Int → ℝ) (ht : TabOK L a b d g h) (imsqrt : Cx ℝ → ℝ)
